@@ -26,12 +26,14 @@ inductive Ctor
   | late    -- `mux.New(ns)`, options applied to the value afterwards
   | zero    -- `&mux.ServeMux{}`, options applied (the maps are created lazily)
   | value   -- a `mux.ServeMux` field of another struct, options applied to its address
+  | redis   -- `mux.New(ns)`, half of the options, THE SAME ELEMENT DISPATCHED ONCE, the other half
   deriving DecidableEq, Repr
 
 /-- the stanza namespace the multiplexer value holds -/
 def muxNS : Ctor → String → String
   | .new, ns => ns
   | .late, ns => ns
+  | .redis, ns => ns
   | .zero, _ => ""
   | .value, _ => ""
 
